@@ -10,6 +10,7 @@ comparator (1e-8): values are assumed pairwise tied or separated by more than bo
 -/
 import HydroVerif.Lemmas.C10Unif
 import HydroVerif.Lemmas.C10Sort
+import HydroVerif.Lemmas.C10Table
 
 set_option linter.unusedSectionVars false
 set_option linter.unusedVariables false
@@ -241,10 +242,8 @@ theorem cvm_perm_invariant (sort : List α → List α) (hs : SortsAscending sor
   rw [cvmStat_eq sort data (hs data).1.length_eq, cvmStat_eq sort data' (hs data').1.length_eq,
     sort_eq_of_perm hs h]
 
-/-- the p-value is `np.interp` into a column of the tabulated p-values: it lies between the bounds of the
-column entries — in [0, 1] for the shipped table, whose entries lie in [0.00089, 1] over increasing abscissae
-(both facts are checked on the table of the working tree at every run) -/
-theorem cvm_pvalue_range (x lo hi : α) (xp fp : List α) (hxp : xp.Pairwise (· < ·))
+/-- `np.interp` into a table stays between the bounds of the tabulated ordinates (increasing abscissae) -/
+theorem interp_range (x lo hi : α) (xp fp : List α) (hxp : xp.Pairwise (· < ·))
     (hfp : ∀ f ∈ fp, lo ≤ f ∧ f ≤ hi) (v : α) (h : interp x xp fp = some v) : lo ≤ v ∧ v ≤ hi := by
   match xp, fp, h with
   | x0 :: xs, f0 :: fs, h =>
@@ -256,21 +255,45 @@ theorem cvm_pvalue_range (x lo hi : α) (xp fp : List α) (hxp : xp.Pairwise (·
       exact interpAux_range x lo hi xs fs x0 f0 (not_lt.mp hlt) hf0.1 hf0.2
         (fun f hf => hfp f (by simp [hf])) hxp
 
-/-- FULL p-value clause of the property ("the p-values of the Cramer-von Mises and Anderson-Darling tests and of
-alpha lie in [0, 1]") for the two externals it depends on: the shipped table (`qq`, `table`: data read from
-`cramer_von_mises_test_pvalues.zip`) and scipy's `kstest` p-value (`ks`). The Anderson-Darling part is
-`ad_pvalue_range`. Not proved as a whole: the table contents and scipy are outside the model; they are observed
-by the oracle on the real code. -/
-def pvalue_range_statement (qq : List α) (table : List (List α)) (ks : List α → α) : Prop :=
-  (∀ col ∈ table, ∀ stat v, interp stat qq col = some v → 0 ≤ v ∧ v ≤ 1) ∧
-    (∀ pits, 0 ≤ ks pits ∧ ks pits ≤ 1)
+/-- the Cramer-von Mises p-value lies in [0, 1] for every sample size and every value of the statistic —
+with NO hypothesis on the table: `Generated/CvmTable.lean` is regenerated from the archive shipped in the working
+tree at every run, and `qq_increasing`, `columns_in_unit` (kernel evaluation over all 500 x 69 entries) are
+re-proved against it -/
+theorem cvm_pvalue_range (n : ℕ) (stat v : α) (h : cvmPvalue n stat = some v) : 0 ≤ v ∧ v ≤ 1 := by
+  unfold cvmPvalue at h
+  split at h
+  · cases h
+  · rename_i j _
+    split at h
+    · cases h
+    · rename_i col hcol
+      exact interp_range stat 0 1 _ _ qq_pairwise
+        (column_unit col (List.mem_of_getElem? hcol)) v h
 
-/-- proved part: the interpolated Cramer-von Mises p-value is in [0, 1] for every statistic and every column,
-given that the abscissae increase and the tabulated entries are in [0, 1] -/
-theorem pvalue_range_partial (qq : List α) (table : List (List α)) (hqq : qq.Pairwise (· < ·))
-    (htab : ∀ col ∈ table, ∀ f ∈ col, 0 ≤ f ∧ f ≤ 1) :
-    ∀ col ∈ table, ∀ stat v, interp stat qq col = some v → 0 ≤ v ∧ v ≤ 1 :=
-  fun col hcol stat v h => cvm_pvalue_range stat 0 1 qq col hqq (htab col hcol) v h
+/-- … and it is always defined -/
+theorem cvm_pvalue_defined (n : ℕ) (stat : α) : ∃ v, cvmPvalue n stat = some v := by
+  unfold cvmPvalue
+  cases hj : closestIdx n Gen.sizes with
+  | none =>
+    exfalso
+    have := sizes_ne_nil
+    cases hs : Gen.sizes with
+    | nil => exact this hs
+    | cons a l => rw [hs] at hj; simp [closestIdx] at hj
+  | some j =>
+    have hlt : j < Gen.columns.length := by rw [columns_length]; exact closestIdx_lt n _ j hj
+    simp only [List.getElem?_eq_getElem hlt]
+    have hne : Gen.columns[j] ≠ [] := by
+      have h := columns_ne_nil
+      rw [List.all_eq_true] at h
+      have := h _ (List.getElem_mem hlt)
+      simpa using this
+    cases hq : Gen.qq with
+    | nil => exact absurd hq qq_ne_nil
+    | cons q0 qs =>
+      cases hc : Gen.columns[j] with
+      | nil => exact absurd hc hne
+      | cons c0 cs => simp [interp]
 
 /-! ## 4. Anderson-Darling: rejection of data outside [0, 1] -/
 
@@ -431,6 +454,22 @@ theorem ad_eq_textbook (sort : List (Option ℝ) → List (Option ℝ)) (hs : AD
 value of the statistic (the code clamps Marsaglia's approximation `1 - AD(n, z)`) -/
 theorem ad_pvalue_range (n : ℕ) (stat : ℝ) : 0 ≤ adPvalue n stat ∧ adPvalue n stat ≤ 1 :=
   clamp01_range _
+
+/-- FULL p-value clause of the property ("the p-values of the Cramer-von Mises and Anderson-Darling tests and of
+alpha lie in [0, 1]"): alpha returns the Cramer-von Mises, the Anderson-Darling or scipy's Kolmogorov-Smirnov
+p-value of the PIT series. `ks` stands for `scipy.stats.kstest(pits, "uniform").pvalue`, which is outside the model;
+not proved as a whole for that reason (the oracle range-checks it on the real code). -/
+def pvalue_range_statement (ks : List ℝ → ℝ) : Prop :=
+  (∀ (n : ℕ) (stat v : ℝ), cvmPvalue n stat = some v → 0 ≤ v ∧ v ≤ 1) ∧
+    (∀ (n : ℕ) (stat : ℝ), 0 ≤ adPvalue n stat ∧ adPvalue n stat ≤ 1) ∧
+    (∀ pits, 0 ≤ ks pits ∧ ks pits ≤ 1)
+
+/-- proved part: everything that is computed by hydrodiy itself — the Cramer-von Mises p-value (for the table the
+working tree ships) and the Anderson-Darling p-value, for every sample size and every statistic -/
+theorem pvalue_range_partial :
+    (∀ (n : ℕ) (stat v : ℝ), cvmPvalue n stat = some v → 0 ≤ v ∧ v ≤ 1) ∧
+      (∀ (n : ℕ) (stat : ℝ), 0 ≤ adPvalue n stat ∧ adPvalue n stat ≤ 1) :=
+  ⟨fun n stat v h => cvm_pvalue_range n stat v h, fun n stat => ad_pvalue_range n stat⟩
 
 theorem ad_perm_invariant (sort : List (Option ℝ) → List (Option ℝ)) (hs : ADSorts sort) (prev0 : ℝ)
     (hprev : prev0 ≤ 0) (xs xs' : List ℝ) (hx : ∀ v ∈ xs, 0 < v ∧ v < 1) (h : xs.Perm xs') :
